@@ -131,9 +131,10 @@ Inductive case :=
      more: primary calls, fallback packets, rcode, EDE *)
 | CaseFailover (p : N) (rd : bool) (fbs : list N) (asked : list Z) (rc1 : N) (ede1 : option N) (flen : Z)
                (calls2 asked2 : Z) (rc2 : N) (ede2 : option N)
-  (* lab: a zone whose authority addresses behave as listed (0,1 healthy; 2,3,4 failure
-     rcode; 5 silent); zone failures published / cleared by Resolver.Resolve, its rcode (999 = error) *)
-| CaseLab (servers : list N) (records clears : Z) (rcode : N)
+  (* lab: a zone of the given depth (dns.CountLabel) whose authority addresses behave as listed
+     (0,1 healthy; 2 REFUSED, 3 SERVFAIL, 4 NOTIMP, 6 NOTAUTH; 5 silent; 7 NXDOMAIN); zone failures
+     published / cleared by Resolver.Resolve, its rcode (999 = error) *)
+| CaseLab (level : N) (servers : list N) (records clears : Z) (rcode : N)
   (* lab: one query while the resolver is at capacity (error class e), the same query
      again once the load is gone: rcode, EDE, authority packets of each *)
 | CaseShed (e : rerr) (rc1 : N) (ede1 : option N) (up1 : Z) (rc2 : N) (ede2 : option N) (up2 : Z)
@@ -353,6 +354,34 @@ Fixpoint cohort_obs_ok (groups : list (cmember * list cmember)) (out : list (can
   | _, _ => false
   end.
 
+(* ---- lab: the fan-out model under a family of schedules *)
+Definition lab_srv (b : N) : srv :=
+  if (b <=? 1)%N then SHealthy else if (b =? 2)%N then SRcode 5 else if (b =? 3)%N then SRcode 2
+  else if (b =? 4)%N then SRcode 4 else if (b =? 5)%N then SSilent else if (b =? 6)%N then SRcode 9 else SRcode 3.
+(* schedules tried: every result in list order with no timer tick (each consumed failure starts the
+   next server); and, with every server started by timer ticks: each server heard first, each
+   server heard last, and "the lame ones, then the NXDOMAIN ones, then the healthy ones" *)
+Definition lab_schedules (sv : list srv) : list (list fo_event) :=
+  let n := length sv in
+  let all := seq 0 n in
+  let timers := repeat FoTimer n in
+  let pick (f : srv -> bool) := filter (fun i => f (nth i sv SSilent)) all in
+  let is_nx (s : srv) := match s with SRcode 3 => true | _ => false end in
+  let is_ok (s : srv) := match s with SHealthy => true | _ => false end in
+  (map FoResult all ++ map FoResult all) ::
+  (timers ++ map FoResult (pick (fun s => negb (is_nx s) && negb (is_ok s)) ++ pick is_nx ++ pick is_ok)) ::
+  map (fun i => timers ++ FoResult i :: map FoResult all) all ++
+  map (fun i => timers ++ map FoResult (filter (fun j => negb (j =? i)%nat) all) ++ [FoResult i]) all.
+Definition lab_obs_ok (o : fo_out) (records : Z) (rcode : N) : bool :=
+  match o with
+  | FOAnswer _ => (records =? 0) && (rcode =? 0)%N
+  | FOResponse rc =>
+      if fo_published o then (1 <=? records) && negb (rcode =? 0)%N && negb (rcode =? 3)%N
+      else (records =? 0) && (rcode =? rc)%N
+  | FOConnFailed => (1 <=? records) && negb (rcode =? 0)%N && negb (rcode =? 3)%N
+  | _ => false
+  end.
+
 Definition check_case (x : case) : bool :=
   match x with
   | CaseBackoff init max obs =>
@@ -430,10 +459,13 @@ Definition check_case (x : case) : bool :=
           else (flen =? 0) && (calls2 =? 1) && (asked2 =? sum am) && negb (opt_N_eqb ede2 (Some ede_cached_error))
       | DTruncated => false
       end
-  | CaseLab servers records clears rcode =>
-      let bs := map (fun b => if (b <=? 1)%N then AHealthy else if (b =? 5)%N then ASilent else AFailureRcode) servers in
-      if zone_failure_published bs then (1 <=? records) && negb (rcode =? 0)%N
-      else (records =? 0) && (rcode =? 0)%N
+  | CaseLab level servers records clears rcode =>
+      (* what was observed is what the fan-out model yields under one of the schedules *)
+      let sv := map lab_srv servers in
+      existsb (fun sched => match fo_done (fo_run sv (N.to_nat level) sched) with
+                            | Some o => lab_obs_ok o records rcode
+                            | None => false
+                            end) (lab_schedules sv)
   | CaseShed e rc1 ede1 up1 rc2 ede2 up2 =>
       (* shed before any packet leaves; the SERVFAIL is recorded unless the handler marks it *)
       (rc1 =? rcode_servfail)%N && (up1 =? 0) &&
@@ -813,9 +845,10 @@ Definition spec_case (x : case) : bool :=
       (if (p =? 2)%N || (p =? 3)%N then forallb (Z.eqb 0) asked else true) &&
       (* a useful answer (primary's or a fallback's) leaves no failure behind *)
       (if (rc1 =? 0)%N then (flen =? 0) else true)
-  | CaseLab servers records clears rcode =>
-      (* a zone failure only for a zone every one of whose servers failed to give a usable response *)
-      if (0 <? records) then forallb (fun b => (2 <=? b)%N) servers else true
+  | CaseLab level servers records clears rcode =>
+      (* a zone failure only for a zone every one of whose servers failed to give a usable response
+         (an answer or NXDOMAIN are usable; a failure rcode, silence are not) *)
+      if (0 <? records) then forallb (fun b => (2 <=? b)%N && negb (b =? 7)%N) servers else true
   | CaseShed e rc1 ede1 up1 rc2 ede2 up2 =>
       (* shed load never becomes shared state: the next query is not answered from the failure cache *)
       if shed_load e then negb (opt_N_eqb ede2 (Some ede_cached_error)) && (1 <=? up2) else true
